@@ -31,12 +31,33 @@ def span_origin_ok(prog, pv, o, depth=0):
         if _ast_param(prog, root):
             return "span of an input node (%s)" % origin_str(o)
         return None
+    # a span read out of a node that the rewriter itself built earlier (the tree is rewritten in place,
+    # so later visits meet such nodes): by induction over this very rule - every span initialiser of
+    # every constructed node is checked where the node is built - it is again DUMMY_SP or an input span
+    if proj and proj[-1] in ("span", "lo", "hi") and len(proj) >= 2:
+        if root[0] == "ctor" and (root[1].startswith("swc_ecma_ast::") or any(root[1] == a or root[1].startswith(a + "::") for a in prog.adts if prog.adts[a].get("krate") == "native_iast_rewriter")):
+            return "span of a node built by the rewriter (checked where it is built)"
+        if root[0] == "call" and prog.by_generic_free().get(root[1].split("::<")[0]) is not None:
+            return "span of a node built by the rewriter (checked where it is built)"
     if root[0] == "call" and root[1].split("::")[-1] in ("span", "span_lo", "span_hi") and depth < 3:
         g = prog.by_def.get(root[2])
         node = g.by_id(root[3])
         recv = hir.call_args(node)[0]
         subs = pv.resolve_params(pv.origins(g, recv))
-        if subs and all(span_origin_ok(prog, pv, s, depth + 1) for s in subs):
+
+        def node_ok(s_):
+            r_, p_ = s_
+            if r_[0] == "param":
+                return _ast_param(prog, r_)
+            if r_[0] == "ctor" and r_[1].split("::")[-1] == "None":
+                return True
+            if r_[0] == "ctor" and (r_[1].startswith("swc_ecma_ast::") or any(r_[1] == a or r_[1].startswith(a + "::") for a in prog.adts if prog.adts[a].get("krate") == "native_iast_rewriter")):
+                return True  # a node built by the rewriter: its span initialisers are checked where it is built
+            if r_[0] == "call" and prog.by_generic_free().get(r_[1].split("::<")[0]) is not None:
+                return True
+            return bool(span_origin_ok(prog, pv, s_, depth + 1))
+
+        if subs and all(node_ok(s_) for s_ in subs):
             return "Spanned::span() of an input node"
         return None
     return None
